@@ -85,6 +85,23 @@ class LenNode(Node):
         return len(self.children)
 
 
+class ListNode(Node, list):
+    """A node that is also a (here: empty) list - falsy, zero length, iterable, unhashable, equal to every other one."""
+
+
+class TupleNode(NodeMixin, tuple):
+    """A node class built on tuple (like a namedtuple record): iterable, has a length, compares by value."""
+
+    def __new__(cls, name):
+        return tuple.__new__(cls, (name, "payload"))
+
+    def __init__(self, name):
+        self.name = name
+
+    def __repr__(self):
+        return "TupleNode(%r)" % (self.name,)
+
+
 class EqSlotLM(LightNodeMixin):
     __slots__ = ["name"]
 
@@ -133,6 +150,12 @@ def factory(clsname):
         return lambda label: LenNode(str(label))
     if clsname == "EqSlotLM":
         return lambda label: EqSlotLM(str(label))
+    if clsname == "ListNode":
+        return lambda label: ListNode(str(label))
+    if clsname == "TupleNode":
+        return lambda label: TupleNode(str(label))
+    if clsname == "TupleNameNode":  # ordinary Node whose name is a tuple (e.g. grid coordinates)
+        return lambda label: Node((int(label), 0))
     if clsname == "MixNM":
         # a different NodeMixin-based class per node (they may share a tree)
         makers = [factory("Node"), factory("AnyNode"), factory("PlainNM"), factory("SymlinkNode")]
@@ -145,5 +168,5 @@ def factory(clsname):
 
 # classes with their own __eq__/__hash__/__bool__/__len__ are ordinary users of the mixins: every property that
 # quantifies over "all trees" holds for them too (the harness itself only ever uses identity on nodes)
-SPECIAL_CLASSES = ["EqNode", "FalsyNode", "LenNode", "EqSlotLM"]
+SPECIAL_CLASSES = ["EqNode", "FalsyNode", "LenNode", "EqSlotLM", "ListNode", "TupleNode", "TupleNameNode"]
 TREE_CLASSES = ["Node", "AnyNode", "PlainNM", "SlotLM", "DictLM", "SymlinkNode", "MixNM", "MixLM"] + SPECIAL_CLASSES
